@@ -189,7 +189,7 @@ prop("C18", "Channel identities never collide", "exploration", "racex",
 
 prop("C19", "Channel state views are total and self-consistent", "exploration", "fsmx",
      "property testing (rapid): total accessor probe under recover and cross-view consistency on every state the explorers obtain, append-only log checks",
-     [hx("TestC19_Fsmx", 4500, 128000), hx("TestC19_Mgrx", 3000, 128000), hx("TestC04_MgrxUpdate", 1800, 32000), hx("TestC04_MgrxRestart", 1800, 32000)],
+     [hx("TestC19_Fsmx", 4500, 128000), hx("TestC19_Mgrx", 3000, 128000), hx("TestC04_MgrxUpdate", 1800, 32000), hx("TestC04_MgrxRestart", 1800, 32000), hx("TestC13_Migrate", 1200, 16000)],
      [],
      "every state produced by generated histories is probed; reachable states are sampled",
      TRUST)
